@@ -239,8 +239,14 @@ def parallel_map(fn, items, procs=None):
     if procs <= 1 or len(items) <= 1:
         return [fn(x) for x in items]
     ctx = mp.get_context('fork')
-    with ctx.Pool(min(procs, len(items))) as pool:
-        return pool.map(fn, items, chunksize=1)
+    # an executor (not mp.Pool): when a worker dies (killed for memory, say) the map raises instead of hanging
+    from concurrent.futures import ProcessPoolExecutor
+    from concurrent.futures.process import BrokenProcessPool
+    try:
+        with ProcessPoolExecutor(min(procs, len(items)), mp_context=ctx) as pool:
+            return list(pool.map(fn, items, chunksize=1))
+    except BrokenProcessPool as ex:
+        raise MachineryError('a worker process died (out of memory?): %s' % ex)
 
 
 # --------------------------------------------------------------------------------------------
